@@ -1022,7 +1022,15 @@ impl<'a, 'b> GeneratorState<'a> {
                                     .compiler_state
                                     .syntax_error("Break statement outside loop", pos))
                             }
-                            Some((cl, _, _)) => cl.clone(),
+                            Some((cl, _, _)) => {
+                                if cl.is_empty() {
+                                    // Inside a switch that is not inside a loop
+                                    return Err(self
+                                        .compiler_state
+                                        .syntax_error("Continue statement outside loop", pos));
+                                }
+                                cl.clone()
+                            }
                         }
                     };
                     self.generate_condition(condition, pos, false, &cont_label, false)?;
